@@ -83,7 +83,7 @@ class C08(Spec):
     driver = 'map'
     lib_srcs = ['rbtree.c', 'bintree.c']
     driver_extra = '-I%s/src -Wl,--wrap=malloc,--wrap=realloc,--wrap=free,--wrap=calloc'
-    header_words = ('fail', 'failfrom', 'cmpmod', 'cmpmode', 'ptrrep')
+    header_words = ('fail', 'failfrom', 'cmpmod', 'cmpmode', 'ptrrep', 'nestclear')
     rule = ('cases = corpus + one case per edge of the breadth-first closure of the Coq model over a small key '
             'universe (incl. allocation failures) + seeded random histories; non-trivial = at least two completed '
             'operations; distinct = distinct (header, operations) text')
@@ -176,7 +176,7 @@ class C08(Spec):
         for ci in range(n):
             nk = rnd.choice([4, 8, 16, 40])
             mod = rnd.choice([0, 0, 0, 3, 7])
-            hdr = ['cmpmode %d' % rnd.randrange(3), 'ptrrep %d' % rnd.randrange(2)]
+            hdr = ['cmpmode %d' % rnd.randrange(3), 'ptrrep %d' % rnd.randrange(2), 'nestclear %d' % rnd.randrange(2)]
             if mod:
                 hdr.append('cmpmod %d' % mod)
             if rnd.random() < 0.4:
@@ -225,7 +225,10 @@ def c15_part(clear_cases):
                 # reusable like a fresh map: nothing left allocated, new entries, lookups, existing key, second clear
                 return ['live', 'size', 'find 1', 'insert 1 0', 'insert 0 1', 'find 1', 'insert 1 1', 'size',
                         'clear', 'live']
-            return clear_cases(C08(), tier, refill)
+            cases, st = clear_cases(C08(), tier, refill)
+            # every second case also with a clear callback that clears another (empty) map before returning
+            cases += [Case(c.name + 'n', c.header + ['nestclear 1'], c.ops, c.origin) for c in cases[::2]]
+            return cases, st
 
         def random_cases(self, tier, seed):
             cs = C08.random_cases(self, tier, seed)
